@@ -13,6 +13,8 @@ class C13(Check):
                   "UDP packet (serveUDPPacket), Shutdown callers; shared state = srv.started (phase), listener "
                   "closed, PacketConn / per-connection read deadline in the past, WaitGroup counter, srv.shutdown "
                   "closed; every lock region is one transition, every read of srv.started its own transition; "
+                  "a datagram shorter than a header creates no worker (SPacketShort), a message serveDNS drops or "
+                  "rejects by itself leaves its worker without a handler (WDrop); "
                   "executable step function, hidden-step closure and trace acceptor (accepts)")
     rule = ("the real dns.Server over a scripted net.Listener + net.Conns (TCP) and a scripted generic net.PacketConn "
             "(UDP), handlers blocked on harness-controlled gates; every merge order of {connect, request, release} "
@@ -44,6 +46,22 @@ class C13(Check):
             "server) and whose owner goes on reading / writing / closing it before, during and after Shutdown, next "
             "to ordinary requests, across restarts (the server must stop tracking it - hook VerifTracksConn -, never "
             "call a net.Conn method on it again, not wait for it; label HExitHj in the LTS); "
+            "a real crypto/tls listener (tls.NewListener over the fake listener, self-signed certificate made at run "
+            "time, real TLS clients over the fake connections): the connect / request / release orders, the special "
+            "scenarios and every read-loop step again with the handshake running inside the server's first read, "
+            "and clients that never get through the handshake (silent, junk instead of a ClientHello - no record, "
+            "too short, another protocol, oversized, partial -, stalled after their first flight, a protocol version "
+            "the server refuses, a client that refuses the certificate, junk / a partial record after the handshake) "
+            "alone, next to a handler in flight, with a context expiry, in pairs, written after Shutdown's lock "
+            "region, followed by a restart; the same raw clients on a plain listener (partial messages); "
+            "input that never reaches a handler (datagrams of 0..11 octets, tcp messages without a complete header, "
+            "responses, bodies that do not unpack, opcodes not implemented, two questions, queries the user's "
+            "MsgAcceptFunc ignores / rejects) alone, before / while / after a query in flight, behind a running "
+            "handler on the same connection, with a context expiry, after the lock region, before a restart, and "
+            "mixed into the unsynchronised runs (labels SPacketShort, WDrop in the LTS); on the real-socket lives "
+            "the same traffic precedes the queries (*net.UDPConn path; tcp / tcp-tls clients that stay silent, write "
+            "junk, send a short message, refuse the certificate) and after Shutdown and the serve call returned "
+            "every such client must see its connection ended and srv.conns must be empty; "
             "every boundary-event log is checked by direct oracles and for acceptance "
             "by the LTS inside Coq; 12 Server values over real loopback UDP/TCP sockets, each living twice, with the direct oracles; goroutine "
             "count back at baseline after every scenario. A case is one event log; distinct by hash.")
@@ -61,7 +79,8 @@ class C13(Check):
         "(SFailStart) only while no Shutdown call has slipped in between (docs/C13.md, residual corner)",
         "liveness is proved as progress (some server step is enabled while Shutdown waits), not as termination "
         "under fairness",
-        "TLS listeners are not run (a TLS listener is a net.Listener wrapper; the TCP path is the same code)",
+        "crypto/tls itself is trusted (the handshake and record layer run for real, over the fake transport and "
+        "over loopback sockets; they are not modelled: a read that fails above the transport is the LTS label ReadErr)",
     ]
     trusted = ["the harness fakes implement net.Conn / net.PacketConn deadline semantics (a deadline in the past "
                "fails blocked and later reads; future deadlines never fire)"]
